@@ -19,6 +19,15 @@ CHECKS = {
  "C07": ("storemon", "exploration", "differential replay (with/without abandoned transactions) incl. vector-search view",
          "Held on the generated histories: dumps and vector-search results are compared step by step between a history with abandoned transactions and the same history without them, across compaction and reopen.",
          "Label/type *names* interned by an abandoned transaction are not observable through data reads and are not compared.", "DESIGN.md §4.2 C07"),
+ "C25": ("robust", "exploration", "round-trip oracle + hostile-input decoding in child processes under a counting allocator (exit status, panic capture, allocation accounting)",
+         "Held on the generated inputs: exact (bit-level) round trips for generated and small-exhaustive values and all 17 log record variants; hostile decodes (mutations, hostile counts, nesting bombs, random bytes, whole log files, statistics blobs) never panicked, killed the child or allocated beyond 64 x input + 1 MiB.",
+         "8 MiB stack, RLIMIT_AS 8 GiB in the child; allocation bound is the harness's restatement of 'without bound'.", "DESIGN.md §4.5 C25"),
+ "C26": ("structmon", "exploration", "reference-model monitor (sorted multimap) over generated insert/delete/reopen sequences on the real B-tree and pager",
+         "Held on the generated sequences: full scans, per-key lookups, most-recent-first order and exact deletes agree with a reference multimap after every step, incl. long runs of equal keys spanning leaves, emptied leaves and pager reopen.",
+         "Unique payloads make histories unambiguous; key alphabets are small by design.", "DESIGN.md §4.6 C26"),
+ "C27": ("structmon", "exploration", "pairwise law checking of the key encoder over boundary-exhaustive pools and seeded random pairs",
+         "Held on the sampled + boundary-exhaustive domain apart from the listed known finding (lists/maps): order, equality and prefix freedom of encode_ordered_value.",
+         "'All integers/floats' is sampled plus boundary-exhaustive; NaN pairs are not judged.", "DESIGN.md §4.6 C27"),
 }
 
 checks = []
